@@ -48,7 +48,7 @@ def cu : Nat := 117
 structure Q where
   n : Int
   d : Nat
-deriving Repr
+deriving Repr, DecidableEq
 
 namespace Q
 def ofInt (i : Int) : Q := ⟨i, 1⟩
@@ -710,6 +710,27 @@ def osvFill (W : List (Bytes × Nat × List (Bytes × Int))) (ignored : List Byt
 /-- "CVSS:3" -/
 def osv3Prefix : Bytes := [67, 86, 83, 83, 58, 51]
 
+/-- the arithmetic of `fromCVSS3` once `ns` is filled: the (exact) score it
+    classifies.  Note the code's Roundup: `((float64(i) / 10_000) + 1) / 10.0`
+    is not floored. -/
+def osv3Core (ns : List Int) : Q :=
+  let g (i : Nat) : Int := ns.getD i 0
+  let changed := g 4 ≠ 0
+  let pr : Int := if changed ∧ g 2 = 620 then 680 else if changed ∧ g 2 = 270 then 500 else g 2
+  let iss := one - ((one - milli (g 5)) * (one - milli (g 6)) * (one - milli (g 7)))
+  let imp : Q :=
+    if changed then Q.dec 752 100 * (iss - Q.dec 29 1000) - Q.dec 325 100 * Q.pow (iss - Q.dec 2 100) 15
+    else iss * Q.dec 642 100
+  if Q.lt (Q.ofInt 0) imp then
+    let exp := Q.dec 822 100 * milli (g 0) * milli (g 1) * milli pr * milli (g 3)
+    let s0 := exp + imp
+    let s1 := if changed then s0 * Q.dec 108 100 else s0
+    let s2 := Q.min s1 ten
+    let i := Q.trunc (s2 * Q.ofInt 100000)
+    if i % 10000 = 0 then Q.mk i 100000
+    else (Q.mk i 10000 + one) * Q.mk 1 10
+  else Q.ofInt 0
+
 /-- the score `fromCVSS3` classifies (exact), `none` = an error return -/
 def osv3Score (s : Bytes) : Option Q :=
   match splitOn cSlash (trimRightSlash s) with
@@ -722,23 +743,7 @@ def osv3Score (s : Bytes) : Option Q :=
     else
       match osvFill osv3Weights osv3Ignored ms (List.replicate 8 0) with
       | none => none
-      | some ns =>
-        let g (i : Nat) : Int := ns.getD i 0
-        let changed := g 4 ≠ 0
-        let pr : Int := if changed ∧ g 2 = 620 then 680 else if changed ∧ g 2 = 270 then 500 else g 2
-        let iss := one - ((one - milli (g 5)) * (one - milli (g 6)) * (one - milli (g 7)))
-        let imp : Q :=
-          if changed then Q.dec 752 100 * (iss - Q.dec 29 1000) - Q.dec 325 100 * Q.pow (iss - Q.dec 2 100) 15
-          else iss * Q.dec 642 100
-        if Q.lt (Q.ofInt 0) imp then
-          let exp := Q.dec 822 100 * milli (g 0) * milli (g 1) * milli pr * milli (g 3)
-          let s0 := exp + imp
-          let s1 := if changed then s0 * Q.dec 108 100 else s0
-          let s2 := Q.min s1 ten
-          let i := Q.trunc (s2 * Q.ofInt 100000)
-          if i % 10000 = 0 then some (Q.mk i 100000)
-          else some ((Q.mk i 10000 + one) * Q.mk 1 10)
-        else some (Q.ofInt 0)
+      | some ns => some (osv3Core ns)
 
 /-- a band switch on an exact score -/
 def bandOfQ : List (Nat × Int × Nat) → Option Nat → Q → Option Nat
@@ -754,19 +759,22 @@ def osv3 (s : Bytes) : Option Nat :=
   | none => none
   | some x => bandOfQ osv3Cases osv3Default x
 
+/-- the arithmetic of `fromCVSS2` once `ns` is filled -/
+def osv2Core (ns : List Int) : Q :=
+  let g (i : Nat) : Q := milli (ns.getD i 0)
+  let exploitability := Q.ofInt 20 * g 0 * g 1 * g 2
+  let impact := Q.dec 1041 100 * (one - (one - g 3) * (one - g 4) * (one - g 5))
+  let fImpact := if impact.isZero then Q.ofInt 0 else Q.dec 1176 1000
+  let score := ((Q.dec 6 10 * impact) + (Q.dec 4 10 * exploitability) - Q.dec 15 10) * fImpact
+  Q.min (tenth (Q.roundHalfAway (score * ten))) ten
+
 def osv2Score (s : Bytes) : Option Q :=
   let ms := splitOn cSlash s
   if ms.length < 6 then none
   else
     match osvFill osv2Weights osv2Ignored ms (List.replicate 6 0) with
     | none => none
-    | some ns =>
-      let g (i : Nat) : Q := milli (ns.getD i 0)
-      let exploitability := Q.ofInt 20 * g 0 * g 1 * g 2
-      let impact := Q.dec 1041 100 * (one - (one - g 3) * (one - g 4) * (one - g 5))
-      let fImpact := if impact.isZero then Q.ofInt 0 else Q.dec 1176 1000
-      let score := ((Q.dec 6 10 * impact) + (Q.dec 4 10 * exploitability) - Q.dec 15 10) * fImpact
-      some (Q.min (tenth (Q.roundHalfAway (score * ten))) ten)
+    | some ns => some (osv2Core ns)
 
 /-- `fromCVSS2` -/
 def osv2 (s : Bytes) : Option Nat :=
